@@ -176,8 +176,8 @@ class Array(
         if items is not None:
             if isinstance(items, Field):
                 if isinstance(items, Number) or items.__class__ is String:
-                    self._serialize = lambda value: value
-                    return value
+                    self._serialize = lambda value: list(value)
+                    return list(value)
                 if isinstance(items, ClassReference):
                     serializer = items._ty.serialize
                     self._serialize = lambda value: [serializer(x) for x in value]
